@@ -22,7 +22,7 @@ from harness import fw
 META = {
     "id": "C05",
     "technique": "Coq proof (induction over item lists, nested statements and the number of passes) about a Gallina model of parse()'s setup/loop split and emit()'s configuration hoisting + extracted-model correspondence with the real Program IR and with compiled firmware traces + extracted temporal monitors run on real traces + CPython reference traces",
-    "level_text": "Theorems C05_* (coq/Props/C05.v) are proved for all item lists, all input histories and all N>=0 about the model coq/Lang/Split.v + coq/Lang/Emit.v (split, poll/tick injection, break guard, global/local variable lifetime, configuration hoisting); the model is run against the real parse() IR and against the emitted C++ compiled with g++ and executed under the mock Arduino core; the proved monitors are extracted and evaluated on the real traces.",
+    "level_text": "Theorems C05_* (coq/Props/C05.v) are proved for all item lists, all input histories and all N>=0 about the model coq/Lang/Split.v + coq/Lang/Emit.v (split, poll/tick injection, break guard, global/local variable lifetime, configuration hoisting with emit()'s dedup sets, the binding each command resolves to when a device name is bound several times); the model is run against the real parse() IR and against the emitted C++ compiled with g++ and executed under the mock Arduino core; the proved monitors are extracted and evaluated on the real traces.",
     "level_note": "Trusted: Coq kernel, extraction, OCaml driver, mock Arduino core (definition of 'device'), CPython 3.12 + harness/impl/pyrun_impl.py (definition of 'what Python does'), the script renderer and trace abstraction in harness/props/c05.py. The theorems are about the model; the correspondence bounds its distance from parser.py / emitter.py on the generated fragment.",
     "design_ref": "DESIGN.md section 4 C05, Appendix B.1, B.5",
 }
@@ -228,8 +228,10 @@ class Builder:
         self.next_mark = 1
         self.pins = [p for p in range(2, 13)] + [p for p in range(22, 54)]
         rng.shuffle(self.pins)
+        self.pins = [p for p in range(99, 59, -1)] + self.pins      # reserve: popped only when the board pins are used up
         self.apins = [14, 15, 16, 17, 18, 19]
         rng.shuffle(self.apins)
+        self.apins = [21, 20] + self.apins
         self.used_names = set()
         self.marks = {}          # id -> form
         self.devs = {}           # name -> (kind, pins, where)
@@ -280,13 +282,32 @@ class Builder:
 
     def use(self, name):
         kind = self.devs[name][0]
+        return self.use_kind(name, kind)
+
+    def use_kind(self, name, kind):
         form = kind
         if kind == "Led" and self.rng.random() < 0.3:
             form = "Led_t"
         return self.mark(name, form)
 
+    def fresh_pins(self, kind):
+        if kind == "Pot":
+            return [self.apins.pop()]
+        return [self.pins.pop() for _ in range(NPINS[kind])]
 
-def gen_program(rng, cls):
+    def raw_decl(self, kind, name, pins, where):
+        """a declaration of an already used name (re-binding) or with chosen pins (sharing)"""
+        key = name
+        while key in self.devs:
+            key += "#"
+        self.used_names.add(name)
+        if kind == "Button":
+            self.inputs.setdefault(pins[0], [self.rng.randint(0, 1) for _ in range(self.rng.randint(1, 6))])
+        self.devs[key] = (kind, list(pins), where)
+        return ("decl", kind, name, list(pins), None, {})
+
+
+def gen_program(rng, cls, force=None):
     """cls: plain | devices | vars | nested | mix | nomain | postloop | twoloops | looplocal_top | looplocal_ok | looplocal_if |
             looplocal_for | setup_inner | break_nested | break_main | break_main_if | break_top | break_setup_for"""
     b = Builder(rng)
@@ -295,9 +316,10 @@ def gen_program(rng, cls):
     b.used_names.add(mon)
     b.devs[mon] = ("Serial", [], "setup")
     items.append(("stmt", ("decl", "Serial", mon, [], None, {})))
-    rich = cls in ("devices", "mix", "nomain", "postloop", "twoloops") or (cls.startswith("break") and rng.random() < 0.3)
+    rich = cls in ("devices", "mix", "nomain", "postloop", "twoloops", "hk_many") or (cls.startswith("break") and rng.random() < 0.3) \
+        or (cls in ("rebind", "rebind_x", "share", "multi", "serial_late") and rng.random() < 0.5 and force is None)
     use_vars = cls in ("vars", "mix", "nested", "nomain") or cls.startswith("looplocal") or cls == "setup_inner" or rng.random() < 0.3
-    use_nested = cls in ("nested", "mix", "break_nested") or rng.random() < 0.25
+    use_nested = cls in ("nested", "mix", "break_nested") or rng.random() < (0.5 if cls in ("rebind", "rebind_x", "share", "multi") else 0.25)
     allow_core = rng.random() < 0.5
     if allow_core:
         items.append(("stmt", b.mark(None, "pm13")))
@@ -313,6 +335,10 @@ def gen_program(rng, cls):
         loop_kinds = rng.sample(HOISTED, rng.randint(0, 4)) if cls != "nomain" else []
         if rng.random() < 0.15:
             loop_kinds = list(HOISTED)
+        if cls == "hk_many":
+            # several buttons (before the loop and at its top) and several animated LCDs
+            setup_kinds = ["Button"] * rng.randint(1, 3) + ["Lcd"] * rng.randint(2, 3) + rng.sample(["Led", "Servo", "Pot"], rng.randint(0, 2))
+            loop_kinds = ["Button"] * rng.randint(1, 2) + rng.sample(["Led", "Ultra"], rng.randint(0, 1))
 
     # handlers (must be defined before the Button(...) call runs)
     n_handlers = sum(1 for k in setup_kinds + loop_kinds if k == "Button")
@@ -333,7 +359,7 @@ def gen_program(rng, cls):
     if use_vars:
         for i in range(rng.randint(1, 3)):
             gvars.append(rng.choice(["g", "cnt", "total", "k"]) + str(i))
-    flag = "flag" if (use_nested or cls in ("looplocal_if", "setup_inner") or cls.startswith("break")) else None
+    flag = "flag" if (use_nested or cls in ("looplocal_if", "setup_inner", "rebind", "rebind_x") or cls.startswith("break")) else None
 
     setup = []       # statements before the main loop (after mon/pm13/handlers)
     declared_devs = [mon]
@@ -378,6 +404,8 @@ def gen_program(rng, cls):
                 x = rng.choice(assigned)
                 merged.append(("set", x, ("add", rng.choice(assigned), rng.randint(-2, 3))))
 
+    loop_locals = []
+
     def block(depth, in_loop, allow_break):
         """a nested block over already-assigned names"""
         body = []
@@ -390,8 +418,8 @@ def gen_program(rng, cls):
             elif r < 0.75 and assigned:
                 x = rng.choice(assigned)
                 body.append(("set", x, ("add", rng.choice(assigned), rng.randint(-1, 2))))
-            elif r < 0.85 and len(declared_devs) > 1:
-                cands = [d for d in declared_devs if b.devs[d][0] not in ("Button", "Serial")]
+            elif r < 0.85 and len(declared_devs) + len(loop_locals) > 1:
+                cands = [d for d in declared_devs + (loop_locals if in_loop else []) if b.devs[d][0] not in ("Button", "Serial")]
                 if cands:
                     body.append(b.use(rng.choice(cands)))
             elif depth < 2:
@@ -419,6 +447,130 @@ def gen_program(rng, cls):
         merged.insert(rng.randint(0, len(merged)), ("break",) if rng.random() < 0.5 or not flag else ("if", flag, [("break",)]))
     if cls == "break_setup_for":
         merged.append(("for", 2, [b.free_mark(mon, allow_core), ("break",), b.free_mark(mon, allow_core)]))
+    extra_loop_decls, extra_loop_uses = [], []
+
+    def insert_seq(seq):
+        """insert the statements of seq into merged at increasing random positions (order preserved)"""
+        pos = 0
+        for st in seq:
+            pos = rng.randint(pos, len(merged))
+            merged.insert(pos, st)
+            pos += 1
+
+    def usable_kind(k):
+        return k not in ("Button",)
+
+    def ruse(nm_, k_):
+        # a method that only class k_ has: `on` / `off` of a name that was ever an RGBLed are parsed as RGBLed commands
+        return b.mark(nm_, "Led_t" if k_ == "Led" else k_)
+
+    if cls in ("rebind", "rebind_x"):
+        # the same variable bound to a device more than once: twice before the main loop, before it and at the top
+        # of its body, twice at the top of the body - same / different pins, same / different kinds (hoisted set)
+        for ri in range(rng.randint(1, 2) if force is None else 1):
+            nm = ["dv", "unit", "R_b"][ri] if rng.random() < 0.8 else rng.choice(["zz9", "A_dev", "dd"]) + str(ri)
+            shape = rng.choice(["pre_loop", "pre_loop", "pre_pre", "loop_loop", "pre_pre_loop", "pre_loop_loop"])
+            if force is not None:
+                shape = force["shape"]
+            n_pre = {"pre_loop": 1, "pre_pre": 2, "loop_loop": 0, "pre_pre_loop": 2, "pre_loop_loop": 1}[shape]
+            n_loop = {"pre_loop": 1, "pre_pre": 0, "loop_loop": 2, "pre_pre_loop": 1, "pre_loop_loop": 2}[shape]
+            if cls == "nomain":
+                n_loop = 0
+            k0 = rng.choice(HOISTED)
+            seq_kinds = []
+            for j in range(n_pre + n_loop):
+                seq_kinds.append(k0 if (cls == "rebind" or rng.random() < 0.3) else rng.choice(HOISTED))
+            if force is not None:
+                seq_kinds = [force["kinds"][j % len(force["kinds"])] for j in range(n_pre + n_loop)]
+            if "Servo" in seq_kinds and "Pot" in seq_kinds:
+                # `read` is a method of both classes: for a name that was ever a Servo the parser emits the Servo getter
+                seq_kinds = [("Ultra" if k == "Pot" else k) for k in seq_kinds]
+            prev = None
+            pre_seq, last_kind = [], None
+            for j, k in enumerate(seq_kinds):
+                if force is not None and prev is not None and prev[0] == k and force["pins"] in ("same", "diff"):
+                    pins = list(prev[1]) if force["pins"] == "same" else b.fresh_pins(k)
+                elif prev is not None and prev[0] == k and rng.random() < 0.35:
+                    pins = list(prev[1])                                   # same pins again
+                elif prev is not None and prev[0] == k and NPINS[k] > 1 and rng.random() < 0.3:
+                    pins = b.fresh_pins(k)
+                    pins[rng.randrange(len(pins))] = prev[1][rng.randrange(len(prev[1]))]   # one pin kept (maybe in another role)
+                    if len(set(pins)) < len(pins):
+                        pins = b.fresh_pins(k)
+                elif prev is not None and prev[0] != k and k != "Pot" and prev[0] != "Pot" and rng.random() < 0.25 \
+                        and {k, prev[0]} <= {"Led", "RGB", "Motor"}:
+                    pins = b.fresh_pins(k)
+                    pins[0] = prev[1][0]                                   # an output pin handed to another output device
+                else:
+                    pins = b.fresh_pins(k)
+                where = "setup" if j < n_pre else "loop"
+                d = b.raw_decl(k, nm, pins, where)
+                prev = (k, pins)
+                if where == "setup":
+                    pre_seq.append(d)
+                    if force is not None:
+                        want = force["use"] is True or (force["use"] == "last" and j == n_pre - 1)
+                    else:
+                        want = rng.random() < 0.6
+                    if usable_kind(k) and want:
+                        pre_seq.append(ruse(nm, k))
+                else:
+                    extra_loop_decls.append(d)
+                    if usable_kind(k) and j < len(seq_kinds) - 1 and rng.random() < 0.3:
+                        extra_loop_decls.append(ruse(nm, k))     # a command between two loop-top declarations
+                last_kind = k
+            insert_seq(pre_seq)
+            if last_kind and usable_kind(last_kind):
+                for _ in range(rng.randint(1, 2)):
+                    extra_loop_uses.append(ruse(nm, last_kind))
+                if flag and rng.random() < 0.5:
+                    extra_loop_uses.append(("if", flag, [ruse(nm, last_kind)]))
+    if cls == "share":
+        # different devices legitimately on one pin (same mode): Led + Ultrasonic trig, Led + Led, Led + RGB channel,
+        # Button + Button, Potentiometer + Potentiometer, Led + DCMotor input, Buzzer + Led
+        for si in range(rng.randint(1, 3)):
+            pair = rng.choice([("Led", "Ultra"), ("Led", "Led"), ("Led", "RGB"), ("Button", "Button"),
+                               ("Led", "Motor"), ("Buzzer", "Led"), ("Ultra", "Led"), ("RGB", "RGB"), ("Motor", "Led")])
+            n1, n2 = f"sa{si}", f"sb{si}"
+            p1 = b.fresh_pins(pair[0])
+            p2 = b.fresh_pins(pair[1])
+            p2[0] = p1[0]
+            w1 = "setup"
+            w2 = "loop" if (pair[1] in HOISTED and cls != "nomain" and rng.random() < 0.5) else "setup"
+            d1, d2 = b.raw_decl(pair[0], n1, p1, w1), b.raw_decl(pair[1], n2, p2, w2)
+            seq = [d1] + ([b.use_kind(n1, pair[0])] if usable_kind(pair[0]) and rng.random() < 0.6 else [])
+            if w2 == "setup":
+                seq += [d2] + ([b.use_kind(n2, pair[1])] if usable_kind(pair[1]) and rng.random() < 0.6 else [])
+            else:
+                extra_loop_decls.append(d2)
+            insert_seq(seq)
+            for n_, k_ in ((n1, pair[0]), (n2, pair[1])):
+                if usable_kind(k_) and rng.random() < 0.7:
+                    extra_loop_uses.append(b.use_kind(n_, k_))
+    if cls == "multi":
+        # several devices of one kind, before the loop and at its top
+        k = rng.choice(HOISTED + ["Buzzer"])
+        for mi in range(rng.randint(2, 4)):
+            n_ = f"{k.lower()}_{mi}"
+            w = "loop" if (k in HOISTED and rng.random() < 0.5) else "setup"
+            d = b.raw_decl(k, n_, b.fresh_pins(k), w)
+            if w == "setup":
+                insert_seq([d] + ([b.use_kind(n_, k)] if usable_kind(k) and rng.random() < 0.5 else []))
+            else:
+                extra_loop_decls.append(d)
+            if usable_kind(k):
+                extra_loop_uses.append(b.use_kind(n_, k))
+    if cls == "serial_late":
+        # SerialMonitor declared as late as Python allows: right before the first statement that prints
+        def mentions_mon(st):
+            return any((x[0] == "mark" and (x[2] == mon or x[3] in ("Pot", "Ultra"))) or x[0] == "show" for x in walk_stmts([st]))
+        first = next((i for i, st in enumerate(merged) if mentions_mon(st)), len(merged))
+        mon_decl = items.pop(0)
+        assert mon_decl[1][0] == "decl" and mon_decl[1][1] == "Serial"
+        if any(it[0] == "stmt" and mentions_mon(it[1]) for it in items):
+            items.insert(0, mon_decl)
+        else:
+            merged.insert(first, mon_decl[1])
     for s in merged:
         items.append(("stmt", s))
 
@@ -433,9 +585,11 @@ def gen_program(rng, cls):
                 d = b.decl(k, "loop", h)
                 body.append(d)
                 local_devs.append(d[2])
+                loop_locals.append(d[2])
+            body.extend(extra_loop_decls)
         start = b.mark(mon, "ser")              # start-of-pass sentinel: the first user statement
         starts.append(start[1])
-        body.append(start)
+        body.insert(next((i for i, st in enumerate(body) if st[0] != "decl"), len(body)), start)
         n_fixed = len(body)
         rest = []
         for _ in range(rng.randint(1, 4)):
@@ -450,6 +604,8 @@ def gen_program(rng, cls):
                 rest.append(("show", mon, v))
         if flag and rng.random() < 0.5:
             rest.append(("set", flag, ("const", rng.randint(0, 1))))
+        if first:
+            rest.extend(extra_loop_uses)
         if use_nested:
             for _ in range(rng.randint(1, 2)):
                 rest.append(block(0, True, cls == "break_nested" or rng.random() < 0.4))
@@ -567,7 +723,7 @@ def canon_model_ir(nodes, prog):
 
 def canon_real_ir(nodes, prog):
     out = []
-    pot_by_pin = {pot_pin_text(p[0]): n for n, (k, p, _w) in prog["devs"].items() if k == "Pot"}
+    pot_by_pin = {pot_pin_text(p[0]): n.rstrip("#") for n, (k, p, _w) in prog["devs"].items() if k == "Pot"}
     pm_id = next((i for i, f in prog["marks"].items() if f == "pm13"), None)
     for n in nodes:
         c = n["_"]
@@ -881,7 +1037,8 @@ NMAX = 3
 
 def guard_of(flags):
     return {"transl_ok": bool(flags[0]), "vars_persist": bool(flags[1]), "well_placed": bool(flags[2]),
-            "one_main_last": bool(flags[3]), "vars_ok": bool(flags[4])}
+            "one_main_last": bool(flags[3]), "vars_ok": bool(flags[4]),
+            "well_placed_unique": bool(flags[5]) if len(flags) > 5 else False}
 
 
 def check_batch(ctx, progs, stats, known_mode=False):
@@ -902,6 +1059,13 @@ def check_batch(ctx, progs, stats, known_mode=False):
             continue
         if me is not None:
             rec["guard"] = guard_of(me[7])
+            if rec["guard"]["well_placed_unique"]:
+                stats["unique_guard"] = stats.get("unique_guard", 0) + 1
+                if rec["guard"]["transl_ok"] and not rec["guard"]["well_placed"]:
+                    ctx.disagree("guard monotonicity: the unique-names guard of the first version holds but the weakened guard does not",
+                                 p["src"], rec["guard"], None)
+            elif rec["guard"]["well_placed"]:
+                stats["only_new_guard"] = stats.get("only_new_guard", 0) + 1
         stats["verdicts"][("accepted" if r["ok"] else r["exc"])] = stats["verdicts"].get(("accepted" if r["ok"] else r["exc"]), 0) + 1
         # ---- break guard: parse() verdict
         has_break_main = p["cls"] in ("break_main", "break_main_if")
@@ -974,6 +1138,17 @@ def check_batch(ctx, progs, stats, known_mode=False):
                     if a != b_:
                         ctx.disagree(f"loop() pass {k} trace (polls, ticks, handler output, markers, values): model exec vs firmware", p["src"], a, b_)
                         break
+                def touched(evs):
+                    return sorted({(e[1], bool(e[2])) for e in evs if e[0] in ("use", "huse") and e[1][0] in ("pin", "servo")
+                                   and e[1] != ("pin", CORE_PIN)})
+                a, b_ = touched(m_setup), touched(setup_a)
+                if a != b_:
+                    ctx.disagree("setup(): pins / servos commanded (which declaration a command resolves to): model exec vs firmware", p["src"], a, b_)
+                for k in range(NMAX):
+                    a, b_ = touched(m_passes[k]), touched(passes_a[k])
+                    if a != b_:
+                        ctx.disagree(f"loop() pass {k}: pins / servos commanded (which declaration a command resolves to): model exec vs firmware", p["src"], a, b_)
+                        break
                 stats["trace_events"] += len(setup_a) + sum(len(t) for t in passes_a)
             else:
                 stats["c_undef"] += 1
@@ -1011,7 +1186,7 @@ def check_batch(ctx, progs, stats, known_mode=False):
                              p["src"], mo, [ok_cbu, ok_one, hk, hk_setup])
         g = rec["guard"] or {"transl_ok": True, "vars_persist": True, "well_placed": True, "one_main_last": True, "vars_ok": True}
         stats["monitor_runs"] += 1
-        if g["well_placed"]:
+        if g["well_placed"] or known_mode:
             stats["in_guard_placement"] += 1
             if not ok_cbu:
                 rec["fails"].append("cbu")
@@ -1104,10 +1279,16 @@ def motor_first_writes(events, prog):
         elif q[0] in ("DW", "AW") and int(q[1]) not in first:
             first[int(q[1])] = (e, phase)
     bad = []
+    owners = {}
+    for name, (kind, pins, _w) in prog["devs"].items():
+        for pin in pins:
+            owners[pin] = owners.get(pin, 0) + 1
     for name, (kind, pins, _w) in prog["devs"].items():
         if kind != "Motor":
             continue
         for pin in pins:
+            if owners.get(pin, 0) > 1:
+                continue          # a pin another declaration also names: what the first write must be is not determined by the motor alone
             if pin in first and (int(first[pin][0].split(" ")[2]) != 0 or first[pin][1] != "setup"):
                 bad.append([name, pin, first[pin][0], first[pin][1]])
             elif pin not in first:
@@ -1142,7 +1323,8 @@ def load_findings(ctx):
 
 CLASSES = ["plain", "devices", "vars", "nested", "mix", "mix", "nomain", "postloop", "twoloops", "looplocal_top",
            "looplocal_if", "looplocal_for", "setup_inner", "break_nested", "break_main", "break_main_if", "break_top",
-           "break_setup_for", "devices", "mix", "looplocal_ok"]
+           "break_setup_for", "devices", "mix", "looplocal_ok",
+           "rebind", "rebind_x", "share", "multi", "hk_many", "serial_late", "rebind", "rebind_x", "rebind"]
 
 
 def run(ctx: C.Ctx):
@@ -1151,7 +1333,36 @@ def run(ctx: C.Ctx):
     n_prog = 600 if thorough else 60
     stats = {"verdicts": {}, "ir_nodes": 0, "sketches": 0, "not_compiled": 0, "trace_events": 0, "c_undef": 0,
              "monitor_runs": 0, "in_guard_placement": 0, "in_guard_python": 0, "outside_guard_python": 0, "py_exc": 0}
-    progs = [gen_program(rng, CLASSES[i % len(CLASSES)]) for i in range(n_prog)]
+    def gen(cls, force=None):
+        # a script that would need more pins than the board has is drawn again (same seeded stream)
+        for _ in range(20):
+            try:
+                return gen_program(rng, cls, force=force)
+            except IndexError:
+                continue
+        return gen_program(rng, "plain")
+
+    progs = [gen(CLASSES[i % len(CLASSES)]) for i in range(n_prog)]
+    # exhaustive over (kind, shape, same/different pins) for a re-bound name of one kind; cross-kind pairs sampled
+    forced = []
+    for k in HOISTED:
+        for shape in ("pre_loop", "pre_pre", "loop_loop"):
+            for pins in ("same", "diff"):
+                forced.append({"kinds": [k], "shape": shape, "pins": pins, "use": True})
+    for k in HOISTED:
+        # bound twice before the loop, commanded only after the second binding (and in the loop)
+        forced.append({"kinds": [k], "shape": "pre_pre", "pins": "diff", "use": "last"})
+    if thorough:
+        for k in HOISTED:
+            for shape in ("pre_pre_loop", "pre_loop_loop"):
+                for pins in ("same", "diff"):
+                    forced.append({"kinds": [k], "shape": shape, "pins": pins, "use": False})
+        pairs = [(a, c) for a in HOISTED for c in HOISTED if a != c and {a, c} != {"Servo", "Pot"}]
+    else:
+        pairs = rng.sample([(a, c) for a in HOISTED for c in HOISTED if a != c and {a, c} != {"Servo", "Pot"}], 10)
+    for a, c in pairs:
+        forced.append({"kinds": [a, c], "shape": rng.choice(["pre_loop", "pre_pre", "loop_loop"]), "pins": "rand", "use": True})
+    progs += [gen("rebind", force=f) for f in forced]
     cls_count = {}
     for p in progs:
         cls_count[p["cls"]] = cls_count.get(p["cls"], 0) + 1
@@ -1195,12 +1406,21 @@ def run(ctx: C.Ctx):
                 if [n[1] for n in in_loop] != body_marks:
                     ctx.known(f"{f['id']}: {f['what']}")
             continue
+        devs = {"mon": ("Serial", [], "setup")}
+        devs.update({k: (v[0], list(v[1]), v[2]) for k, v in w.get("devs", {}).items()})
         prog = {"src": w["src"], "items": w["items"], "marks": marks,
-                "inputs": {}, "lcd_user_row": {}, "lcd_anim_rows": {}, "lcd_order": [], "devs": {"mon": ("Serial", [], "setup")},
+                "inputs": {int(k): list(v) for k, v in w.get("inputs", {}).items()},
+                "lcd_user_row": {}, "lcd_anim_rows": {}, "lcd_order": [], "devs": devs,
                 "cls": "witness", "sentinels": w.get("sentinels", []), "starts": []}
         probe_stats = {k: (0 if not isinstance(v, dict) else {}) for k, v in stats.items()}
         rec = check_batch(ctx, [prog], probe_stats, known_mode=True)[0]
-        if rec.get("py_diff") is not None:
+        if w.get("monitor") == "cbu":
+            # configured-before-use witness: the monitor fails on the real firmware trace (and the model says: outside well_placed)
+            if "cbu" in rec.get("fails", []):
+                ctx.known(f"{f['id']}: {f['what']}")
+                if rec.get("guard") and rec["guard"]["well_placed"]:
+                    ctx.disagree("known-finding witness is inside the model's guard", w["src"], rec["guard"], rec["fails"])
+        elif rec.get("py_diff") is not None:
             ctx.known(f"{f['id']}: {f['what']}")
 
     n_inside = stats["in_guard_python"]
@@ -1213,6 +1433,8 @@ def run(ctx: C.Ctx):
                          "sketches_run": stats["sketches"], "sketches_not_compiled": stats["not_compiled"],
                          "abstract_trace_events_compared": stats["trace_events"], "model_says_c_undefined": stats["c_undef"],
                          "monitor_runs_on_real_traces": stats["monitor_runs"], "inside_placement_guard": stats["in_guard_placement"],
+                         "inside_unique_names_guard_of_v1": stats.get("unique_guard", 0),
+                         "inside_placement_guard_only_since_rebinding_is_modelled": stats.get("only_new_guard", 0),
                          "compared_with_cpython_inside_guard": n_inside, "outside_guard_not_compared": stats["outside_guard_python"],
                          "cpython_exceptions": stats["py_exc"], "prefix_runs": prefix_checked,
                          "motor_pins_checked_for_safe_stop": stats.get("motor_pins_checked", 0),
@@ -1220,8 +1442,11 @@ def run(ctx: C.Ctx):
                          "device_kinds_setup": sorted({d[0] for p in progs for d in p["devs"].values() if d[2] == "setup"}),
                          "device_kinds_loop": sorted({d[0] for p in progs for d in p["devs"].values() if d[2] == "loop"})},
         "exhaustive": False,
-        "guard": "oracle vs CPython: model says transl_ok (no rejected break), one `while True:` and it is the last top-level item (or none), vars_ok (no block below setup depth 0 / inside the loop introduces a name; a name first assigned inside `while True:` is assigned by a top-level statement of the body before anything reads it in that pass); configure-before-use monitors: model says well_placed (unique device names, devices declared by top-level statements, before use, loop-top declarations only of the hoisted kinds, one mode per pin). Outside: known findings F-C05-looplocal-reinit (vars_ok), F-C05-postloop-in-setup and F-C05-second-main-loop-appended (one_main_last), F-C05-main-header-comment (lexical). The break guard, housekeeping (hk_ok), no-pass-cut-short and motor safe-stop oracles have no guard.",
-        "unmodelled": ["devices declared inside nested blocks (outside the property's quantifier)", "re-declaration of a device name",
+        "guard": "oracle vs CPython: model says transl_ok (no rejected break), one `while True:` and it is the last top-level item (or none), vars_ok (no block below setup depth 0 / inside the loop introduces a name; a name first assigned inside `while True:` is assigned by a top-level statement of the body before anything reads it in that pass); configure-before-use monitors: model says well_placed (devices declared by top-level statements, loop-top declarations only of the hoisted kinds, Buzzer/LCD/SerialMonitor names bound once, a device name bound several times only with one main loop as last item, one mode per pin, and the static resolution check: with emit()'s bindings and dedup keys at each point of the text every statement / poll / tick / handler only touches pins configured by the hoisted block or an earlier in-place configuration). Outside: F-C05-button-rebound-unconfigured, F-C05-ultrasonic-rebound-early-measure. Outside: known findings F-C05-looplocal-reinit (vars_ok), F-C05-postloop-in-setup and F-C05-second-main-loop-appended (one_main_last), F-C05-main-header-comment (lexical). The break guard, housekeeping (hk_ok), no-pass-cut-short and motor safe-stop oracles have no guard.",
+        "unmodelled": ["devices declared inside nested blocks (outside the property's quantifier)",
+                       "re-binding of a Buzzer / LCD / SerialMonitor name (not of the hoisted set; names kept unique by the guard)",
+                       "which COMMAND the parser emits for a method shared by two classes when a name was bound to both (`on`/`off` of a name that was ever an RGBLed are parsed as RGBLed commands and drive the old RGB pins - configured, so not a C05 matter; a behaviour-preservation defect): likewise `read` of a name that was ever a Servo is the Servo getter; generated re-binding scripts use methods only one class has (toggle, set_color, write, set_speed, measure_distance; `read` only when the name is never a Servo)",
+                       "a re-bound Servo name keeps driving the pin of its FIRST declaration (one Servo object per name, attached once) and a re-bound Ultrasonic name always measures on the pins of its LAST declaration: modelled as is (the commanded pins are configured, configure-before-use holds on the trace); that the commands reach the wrong pin is a behaviour-preservation defect outside this property's statement",
                        "lexical recognition of the main-loop header (`while True:  # comment` is not recognised: finding F-C05-main-header-comment, replayed on the real parser only; generated headers are exactly `while True:`)",
                        "the value a DCMotor is stopped with / a Servo is first written with (the model has 'a write'; the harness checks on the real trace that the first write on every motor pin is a 0-write inside setup())",
                        "names promoted out of a block inside setup() below depth 0 are re-initialised at the head of the block on every execution of it (modelled; outside vars_ok; a C01 matter, not a clause of C05)",
